@@ -57,6 +57,8 @@ type vC09Case struct {
 	order []int       // creation order on disk
 	// forceSize != 0: the scenario needs this points-per-block setting (block-count limit case)
 	forceSize int
+	// emptiedKey: one key is removed completely by several disjoint range tombstones in every file holding it
+	emptiedKey bool
 }
 
 var vC09Types = []byte{'f', 'i', 'u', 'b', 's'}
@@ -354,6 +356,34 @@ func vC09DrawCase(rt *rapid.T, maxFiles int, blockLimit bool) *vC09Case {
 			t := fl.blocks[0][0].ts[rapid.IntRange(0, 999).Draw(rt, "limitTomb")]
 			fl.tombs = append(fl.tombs, vC09Tomb{kind: "partial", keys: []int{0}, min: t, max: t, late: rapid.Bool().Draw(rt, "limitTombLate")})
 		}
+	}
+	// a key whose every point is removed by several disjoint range tombstones (never by one whole-key tombstone),
+	// in every file that holds it: the merged key is empty and the keys sorting after it must still be written
+	if rapid.IntRange(0, 5).Draw(rt, "emptyKeyPiecewise") == 0 {
+		k := rapid.IntRange(0, len(c.keys)-1).Draw(rt, "emptyKey")
+		for _, fl := range c.files {
+			var all []int64
+			for _, b := range fl.blocks[k] {
+				all = append(all, b.ts...)
+			}
+			if len(all) == 0 {
+				continue
+			}
+			sort.Slice(all, func(i, j int) bool { return all[i] < all[j] })
+			late := rapid.Bool().Draw(rt, "emptyKeyLate")
+			if len(all) == 1 {
+				fl.tombs = append(fl.tombs, vC09Tomb{kind: "piecewise", keys: []int{k}, min: all[0], max: all[0], late: late})
+				continue
+			}
+			j := rapid.IntRange(1, len(all)-1).Draw(rt, "emptyKeySplit")
+			for j < len(all)-1 && all[j] == all[j-1] {
+				j++
+			}
+			fl.tombs = append(fl.tombs,
+				vC09Tomb{kind: "piecewise", keys: []int{k}, min: all[0], max: all[j-1], late: late},
+				vC09Tomb{kind: "piecewise", keys: []int{k}, min: all[j], max: all[len(all)-1], late: late})
+		}
+		c.emptiedKey = true
 	}
 	// absolute time base: mostly 0, sometimes at the ends of the valid timestamp range
 	var maxRel int64
